@@ -109,7 +109,11 @@ impl Cipher for TwofishCipher {
         let cipher = TwofishCbcDecryptor::new_from_slices(&self.key, &self.iv)?;
 
         let mut buf = ciphertext.to_vec();
-        cipher.decrypt_padded_mut::<twofish::cipher::block_padding::Pkcs7>(&mut buf)?;
+        // decrypt_padded_mut returns the unpadded plaintext as a sub-slice of `buf`
+        let len = cipher
+            .decrypt_padded_mut::<twofish::cipher::block_padding::Pkcs7>(&mut buf)?
+            .len();
+        buf.truncate(len);
         Ok(buf)
     }
 
